@@ -84,6 +84,10 @@ func runWorldH(rc *RunCtx) *RunResult {
 
 	// ---- a genuine batch
 	nOps := 1 + T.Draw(7, "cfg.ops")
+	if T.Draw(6, "cfg.big") == 0 {
+		nOps = 9 + T.Draw(12, "cfg.ops.big")
+	}
+
 	mix := T.Draw(5, "cfg.mix") // 0: anything, 1: deactivate only, 2: update only, 3: create only, 4: recover+deactivate
 
 	var kg workload.KeyGen
@@ -93,10 +97,11 @@ func runWorldH(rc *RunCtx) *RunResult {
 	parser := operationparser.New(w.proto)
 
 	for i := 0; i < nOps; i++ {
-		upd, rec := kg.New(workload.Ed25519, false), kg.New(workload.Ed25519, false)
-		patches, _ := workload.ToPatches([]workload.PatchDesc{{Kind: workload.AddKey, IDs: []string{"k1"}, Mark: fmt.Sprintf("m%d", i)}})
+		upd, rec := kg.New(workload.Ed25519, i%3 == 1), kg.New(workload.Ed25519, i%4 == 2)
+		patches, _ := workload.ToPatches([]workload.PatchDesc{{Kind: workload.AddKey, IDs: []string{"k1", "k2"}[:1+i%2], Mark: fmt.Sprintf("m%d", i)},
+			{Kind: workload.AddSvc, IDs: []string{"s1"}, Mark: fmt.Sprintf("m%d", i)}}[:1+i%2])
 
-		createReq, err := workload.Build(&workload.OpSpec{Type: operation.TypeCreate, Hash: simenv.SHA2_256, NextUpdate: upd, NextRecovery: rec, Patches: patches, AnchorOrigin: "o"})
+		createReq, err := workload.Build(&workload.OpSpec{Type: operation.TypeCreate, Hash: simenv.SHA2_256, NextUpdate: upd, NextRecovery: rec, Patches: patches, AnchorOrigin: originValue(i)})
 		if err != nil {
 			panic(err)
 		}
@@ -122,7 +127,7 @@ func runWorldH(rc *RunCtx) *RunResult {
 		req := createReq
 
 		if typ != operation.TypeCreate {
-			spec := &workload.OpSpec{Type: typ, Suffix: parsed.UniqueSuffix, Hash: simenv.SHA2_256, Patches: patches, AnchorOrigin: "o2"}
+			spec := &workload.OpSpec{Type: typ, Suffix: parsed.UniqueSuffix, Hash: simenv.SHA2_256, Patches: patches, AnchorOrigin: originValue(i + 1)}
 
 			switch typ {
 			case operation.TypeUpdate:
